@@ -68,9 +68,9 @@ class RuleContext:
         self.findings.append(Finding(self.prop, rule, construct, detail, message, where, path or []))
 
     def check(self, cond: bool, rule: str, construct: str, detail: str, message: str,
-              where: str = '', note: str = '') -> bool:
+              where: str = '', note: str = '', nontrivial: bool = True) -> bool:
         if cond:
-            self.ok(rule, construct, note or detail)
+            self.ok(rule, construct, note or detail, nontrivial)
         else:
             self.fail(rule, construct, detail, message, where)
         return cond
